@@ -65,20 +65,20 @@ SHIMS = CORE_SHIM_MODULES + [
     'cirq.circuits.qasm_output',
     'cirq.work.observable_measurement_data',
     'cirq.work.observable_measurement',
-    'cirq.experiments.grid_parallel_two_qubit_xeb' if False else 'cirq.experiments.random_quantum_circuit_generation',
+    'cirq.experiments.random_quantum_circuit_generation',
     'cirq.experiments.xeb_fitting',
     'cirq.experiments.single_qubit_readout_calibration',
     'cirq.protocols.json_serialization',
     'cirq.protocols.approximate_equality_protocol',
     'cirq.protocols.resolve_parameters',
-    'cirq.devices.thermal_noise_model' if False else 'cirq.devices.noise_model',
-    'cirq_google.ops.coupler_pulse' if False else 'cirq_google.experimental.ops.coupler_pulse',
+    'cirq.devices.noise_model',
+    'cirq_google.experimental.ops.coupler_pulse',
     'cirq_google.ops.internal_gate',
-    'cirq_google.devices.known_devices' if False else 'cirq_google.workflow.processor_record',
+    'cirq_google.workflow.processor_record',
     'cirq_google.workflow.quantum_executable',
     'cirq_google.workflow.quantum_runtime',
     'cirq_google.study.device_parameter',
-    'cirq_google.api.v2.run_context_pb2' if False else 'cirq_google.engine.calibration_layer',
+    'cirq_google.engine.calibration_layer',
     'cirq_pasqal.pasqal_qubits',
     'cirq_pasqal.pasqal_device',
     'cirq_ionq.ionq_native_target_gateset',
@@ -206,7 +206,9 @@ def _plain_equal(a, b):
         return True
     if isinstance(a, bool) != isinstance(b, bool):
         return False
-    return type(a) in (type(b), ) + ((int, float) if isinstance(b, (int, float)) else ()) and a == b
+    if isinstance(a, (int, float)) and isinstance(b, (int, float)):
+        return isinstance(a, float) == isinstance(b, float) and a == b  # 1 stays int, 1.0 stays float
+    return type(a) is type(b) and a == b
 
 
 def as_bool(x):
@@ -335,7 +337,7 @@ def json_obligations(tier):
     obs.append(json_ob('ControlledGate.sum_of_products', lambda t: cirq.ControlledGate(cirq.Z**t, control_values=cirq.SumOfProducts([(0, 1), (1, 0)], name='xor')), ['sub_gate', 'control_values', lambda g: g.sub_gate.exponent], [t]))
     obs.append(json_ob('ParallelGate', lambda t, n: cirq.ParallelGate(cirq.Y**t, n + 1), ['sub_gate', 'num_copies', lambda g: g.sub_gate.exponent], [t], choices=[('n', 3)]))
     obs.append(json_ob('RandomGateChannel', lambda t, pr: cirq.RandomGateChannel(sub_gate=cirq.X**t, probability=pr), ['sub_gate', 'probability', lambda g: g.sub_gate.exponent], [t, pr]))
-    obs.append(json_ob('_InverseCompositeGate', lambda theta, phi: cirq.inverse(cirq_google.SYC) if False else cirq.ops.raw_types._InverseCompositeGate(cirq.FSimGate(theta, phi)), [lambda g: g._original.theta, lambda g: g._original.phi], [th, ph]))
+    obs.append(json_ob('_InverseCompositeGate', lambda theta, phi: cirq.ops.raw_types._InverseCompositeGate(cirq.FSimGate(theta, phi)), [lambda g: g._original.theta, lambda g: g._original.phi], [th, ph]))
     obs.append(json_ob('WaitGate', lambda d, k: cirq.WaitGate(cirq.Duration(picos=d), **[{}, {'num_qubits': 2}, {'qid_shape': (3,)}, {'qid_shape': (2, 3)}][k]), [lambda g: g.duration.total_picos(), lambda g: cirq.qid_shape(g)], [('d', 0.0, 1e6)], choices=[('k', 4)], expected=(ValueError,), hashable=False, desc='WaitGate(duration=Duration(picos=d)) with num_qubits/qid_shape omitted-when-default branches'))
     obs.append(json_ob('MatrixGate.diag', lambda a, b, nmd: cirq.MatrixGate(np.array([[_ph(a), 0], [0, _ph(b)]], dtype=object) if is_symb(a) else np.array([[_ph(a), 0], [0, _ph(b)]]), name=[None, 'G'][nmd]), [lambda g: cirq.unitary(g), '_name'], [('a', -2.0, 2.0), ('b', -2.0, 2.0)], choices=[('nmd', 2)], hashable=False, desc='MatrixGate(diag(e^{i pi a}, e^{i pi b})): complex matrix entries through tolist()/np.array and the unitarity re-validation; name omitted when None'))
     dps = cirq.DensePauliString('XYZ')
@@ -402,7 +404,7 @@ def json_obligations(tier):
 
     def sweep_tree(a, b, c, k):
         A_, B_, C_ = cirq.Linspace('x', a, b, 2), cirq.Points('y', [c, a]), cirq.Points('z', [b])
-        return [cirq.Zip(A_, B_), cirq.Product(A_, cirq.Zip(B_, C_)), cirq.Concat(cirq.Points('x', [a]), cirq.Points('x', [b, c])), cirq.ZipLongest(B_, C_), A_ * B_ + C_ if False else cirq.Product(cirq.Product(A_), cirq.Concat(B_, B_))][k]
+        return [cirq.Zip(A_, B_), cirq.Product(A_, cirq.Zip(B_, C_)), cirq.Concat(cirq.Points('x', [a]), cirq.Points('x', [b, c])), cirq.ZipLongest(B_, C_), cirq.Product(cirq.Product(A_), cirq.Concat(B_, B_))][k]
 
     obs.append(json_ob('SweepTrees', sweep_tree, [lambda sw: [sorted(r.param_dict.items()) for r in sw] if not _has_sym_sweep(sw) else _sweep_leaves(sw)], [('a', -3.0, 3.0), ('b', -3.0, 3.0), ('c', -3.0, 3.0)], choices=[('k', 5)], desc='Zip / Product / Concat / ZipLongest trees over Linspace/Points with symbolic endpoints and points'))
 
@@ -972,17 +974,83 @@ LEVEL = (
 
 
 def main(tier, seed=0, replay=None, only=None, procs=None):
+    import os
+    import sys
+
+    from harness_ch import runner as CH
+
     bounds = {
-        'symbolic': 'every real/integer field named in the obligation (exponents in [-4,4], shifts [-1,1], radians [-7,7], probabilities [0,1], picoseconds up to 1e6, integer fields in their listed ranges)',
-        'enumerated': 'finite selectors per obligation (dimension, omitted-when-default switches, control values, repetition-id modes, sweep tree shapes); one representative structure per class (qubits, keys, Pauli masks are concrete)',
+        'symbolic': 'every real/integer field named in the obligation (exponents in [-4,4], shifts [-1,1], radians [-7,7], probabilities [0,1], picoseconds, integer fields in their listed ranges); key.*: key name / path / prefix strings (two free strings of length <= 2 quick / <= 3 thorough, or one of length <= 3 / 4)',
+        'enumerated': 'finite selectors per obligation (dimension, omitted-when-default switches, control values, repetition-id modes, sweep tree shapes); one representative structure per class (qubits, keys, Pauli masks are concrete); hist.*: ALL step sequences of length 2 (quick) / 3 (thorough) over the listed menus = solver-driven bounded exploration',
         'tolerance': TOL,
         'outside': [
-            'JSON text encoding/decoding (C-level json, string escaping, NaN/Infinity spelling, gzip, files): replaced by the tree model oracles/json_model.py in symbolic mode; the real text path runs at the concrete validation points and in every replay',
+            'JSON text encoding/decoding (C-level json, string escaping, NaN/Infinity spelling, gzip, files): replaced by the tree model oracles/json_model.py in symbolic mode; the real text path runs at the concrete validation points and in every replay, where the model is also compared with json.loads of the real text',
             'the stored corpus json_test_data/*.json, *.json_inward, *.repr (finite set of concrete documents: nothing to quantify)',
-            'repr/eval round trips (proper_repr), pickling of arbitrary values (only inside hist.* bounded exploration)',
-            'qubit coordinates and names (hashed/interned at construction), Qid ordering',
-            'numpy/pandas payload classes (Result, BitstringAccumulator, TensoredConfusionMatrices, CliffordTableau, ...), protobuf-backed classes (Calibration, GridDevice), device/noise-property classes with nested dict-of-type keys',
-            'hash VALUES of symbolic numbers (hash(symbolic) is a constant): hash agreement is structural in json.* and concrete in hist.*',
+            'repr/eval round trips (proper_repr); pickling/copying of arbitrary values (only inside hist.* bounded exploration)',
+            'qubit coordinates and names (hashed/interned at construction), Qid ordering, cirq_pasqal qubits (coordinates are rounded at construction)',
+            'numpy/pandas payload classes (Result, BitstringAccumulator, TensoredConfusionMatrices, CliffordTableau, ...), protobuf-backed classes (Calibration, GridDevice), device / noise-property classes, Gateset/GateFamily',
+            'hash VALUES of symbolic numbers and of symbolic strings: hash agreement is decided only at concrete validation points / replays (json.*, eq.*) and in hist.*; Duration.__hash__ (goes through datetime.timedelta)',
+            'MeasurementKey path components containing the separator ":" (precondition of key.*)',
         ],
     }
-    return run_check(PID, tier, 'checks.C11', SHIMS, LEVEL, BASE_ASSUMPTIONS, bounds, seed=seed, replay=replay, only=only, procs=procs)
+    root = os.path.dirname(os.path.dirname(os.path.abspath(__file__)))
+    chfile = os.path.join(root, 'harness_ch', 'c11_keys.py')
+    if replay:
+        data = json.load(open(replay))
+        if data.get('engine') == 'crosshair':
+            import importlib
+
+            mod = importlib.import_module('harness_ch.c11_keys')
+            try:
+                ok = bool(eval(data['call'], dict(vars(mod))))
+            except Exception as e:
+                ok = False
+                print('  raised', type(e).__name__, e)
+            print(f'replay {data["call"]} -> {"holds" if ok else "FAILS"}')
+            if not ok:
+                print(f'VIOLATION property={PID} replay={replay}')
+                return 1
+            return 0
+    want_keys = replay is None and (not only or any(('key.' in s_) or s_.startswith('law_') or s_.startswith('twin_') or s_ == 'key' for s_ in only))
+    h = None
+    if want_keys:
+        h = CH.start(chfile, 30 if tier == 'quick' else 150, {'C11_KEY_LEN': '2' if tier == 'quick' else '3'})
+    rc = run_check(PID, tier, 'checks.C11', SHIMS, LEVEL, BASE_ASSUMPTIONS + CH_ASSUMPTIONS, bounds, seed=seed, replay=replay, only=only, procs=procs)
+    if h is None:
+        return rc
+    res = CH.finish(h, 'harness_ch.c11_keys', only=[s_.replace('key.', '') for s_ in only] if only else None)
+    evp = os.path.join(root, 'evidence', f'{PID}.json')
+    ev = json.load(open(evp))
+    cov = ev['coverage']
+    n_l, n_ok = len(res['laws']), sum(1 for v in res['laws'].values() if v.startswith('confirmed'))
+    cov['crosshair'] = res
+    cov['obligations'] += n_l
+    cov['discharged'] += n_ok
+    cov['twins']['total'] += len(res['twins'])
+    cov['twins']['refuted'] += sum(1 for v in res['twins'].values() if v == 'refuted')
+    cov['per_obligation'].update({'key.' + k: {'engine': 'crosshair', 'verdict': v} for k, v in res['laws'].items()})
+    nviol = 0
+    for i_, vtxt in enumerate(res['violations']):
+        m = CH.CALL.search(vtxt)
+        path = os.path.join(root, 'evidence', 'replays', f'{PID}-ch-{i_}.json')
+        json.dump({'property': PID, 'engine': 'crosshair', 'obligation': 'key.' + vtxt.split(':')[0], 'call': m.group('call') if m else '', 'failure': vtxt}, open(path, 'w'), indent=1)
+        print(f'  violation in key.{vtxt[:300]}')
+        print(f'VIOLATION property={PID} replay={path}')
+        nviol += 1
+    for s_ in res['inconclusive']:
+        print('INCONCLUSIVE: key.' + s_[:400])
+    ev['violations'] += nviol
+    if nviol:
+        rc = 1
+    elif res['inconclusive'] and rc == 0:
+        rc = 2
+    json.dump(ev, open(evp, 'w'), indent=1, default=str)
+    print(f'{PID} [{tier}] crosshair: laws confirmed={n_ok}/{n_l} twins refuted={sum(1 for v in res["twins"].values() if v == "refuted")}/{len(res["twins"])} wall={res["wall_s"]}s exit={rc}')
+    return rc
+
+
+CH_ASSUMPTIONS = [
+    "json.*: the json module is replaced by the documented tree semantics (oracles/json_model.py): dict -> object with str keys in insertion order, list/tuple -> array, default(o) for everything else, object_hook on every decoded object, inner objects first; symbolic scalars are leaves standing for the float/int/bool the caller would pass; resolver entry 'complex' keeps symbolic parts",
+    'key.*: CrossHair 0.0.110 is trusted for "Confirmed over all paths"; string lengths bounded as listed; hash() of symbolic strings is not used in the contracts',
+    'hist.*: bounded exploration: step menus and history length are finite; symbolic ingredients are the gate exponent / resolver value carried through every step',
+]
